@@ -1704,7 +1704,8 @@ Proof.
   induction n as [|t|keys obj IH|ns IH] using node_rect'; intro N.
   - exact I.
   - exact N.
-  - apply ntok_doc in N. rewrite render4_doc. apply tok_obj. rewrite Forall_map. cbn [fst snd].
+  - destruct keys as [|k0 keys]; [|exact I].
+    apply ntok_doc in N. rewrite render4_doc. apply tok_obj. rewrite Forall_map. cbn [fst snd].
     apply Forall_forall. intros kv Hin. apply In_sort4 in Hin. apply in_map_iff in Hin as [kv0 [<- Hin0]]. cbn [fst snd].
     rewrite Forall_forall in IH, N. split; [apply body_ok_quote | apply (IH _ Hin0); apply (N _ Hin0)].
   - apply ntok_ary in N. cbn [render4]. apply tok_arr. rewrite Forall_map. rewrite Forall_forall in *.
@@ -1716,7 +1717,8 @@ Proof.
   induction n as [|t|keys obj IH|ns IH] using node_rect'; intros d H.
   - cbn. lia.
   - exact H.
-  - apply nlv_doc in H as [O [_ Ho]]. unfold okD in O. unfold mlv in Ho. rewrite render4_doc, tdepth_obj, maxd_map. cbn [snd].
+  - destruct keys as [|k0 keys]; [|cbn; lia].
+    apply nlv_doc in H as [O [_ Ho]]. unfold okD in O. unfold mlv in Ho. rewrite render4_doc, tdepth_obj, maxd_map. cbn [snd].
     assert (maxd (fun kv : bytes * tjson => Text.tdepth (snd kv)) (sort4 (map (fun kv => (fst kv, render4 (snd kv))) obj)) <= d - 1)%N; [|lia].
     apply maxd_bound. intros kv Hin. apply In_sort4 in Hin. apply in_map_iff in Hin as [kv0 [<- Hin0]]. cbn [snd].
     rewrite Forall_forall in IH, Ho. apply (IH _ Hin0). apply (Ho _ Hin0).
